@@ -366,11 +366,15 @@ Definition literal_name (e : expr) : option (list Z) :=
 
 Definition bool_of (v : val) : option bool := match v with VBool b => Some b | _ => None end.
 
-Fixpoint eval (fuel : nat) (c : ctx) (anon : option val) (e : expr) {struct fuel} : val * list diag :=
+(* eval_with idx: the evaluator, parametric in the function used for IndexExpr (hcl.Index).
+   The implementation is [eval := eval_with index]; the parameter exists so that theorems can
+   say precisely which property of hcl.Index they depend on. *)
+Fixpoint eval_with (idx : val -> val -> val * list diag)
+         (fuel : nat) (c : ctx) (anon : option val) (e : expr) {struct fuel} : val * list diag :=
   match fuel with
   | O => (dyn_val, [dunsupported])
   | S f =>
-  let ev := eval f in
+  let ev := eval_with idx f in
   match e with
   | ELit v => (v, [])
   | EParen e' => ev c anon e'
@@ -385,7 +389,7 @@ Fixpoint eval (fuel : nat) (c : ctx) (anon : option val) (e : expr) {struct fuel
   | EIndex coll key =>
       let '(cv, cds) := ev c anon coll in
       let '(kv, kds) := ev c anon key in
-      let '(r, ids) := index cv kv in
+      let '(r, ids) := idx cv kv in
       (r, cds ++ kds ++ ids)
 
   | ETuple es =>
@@ -910,6 +914,8 @@ Fixpoint eval (fuel : nat) (c : ctx) (anon : option val) (e : expr) {struct fuel
       end
   end
   end.
+
+Definition eval := eval_with index.
 
 Fixpoint expr_size (e : expr) : nat :=
   match e with
